@@ -450,8 +450,21 @@ func c07Conn(r *fw.R, beh string, role Role, p wire.Params, seed uint64, success
 
 	switch beh {
 	case "wsjson":
+		if !successor {
+			// two more connections read JSON at the same time, so that decodes overlap with other reads
+			var swg sync.WaitGroup
+			for j := 0; j < 2; j++ {
+				swg.Add(1)
+				go func(j int) { defer swg.Done(); c07Conn(r, "wsjson", role, p, seed+uint64(j)+100, true) }(j)
+			}
+			defer swg.Wait()
+		}
 		for m := uint32(0); m < 12; m++ {
-			tag := fmt.Sprintf("conn-%d-msg-%d-%s", k, m, strings.Repeat("x", rng.Intn(3000)))
+			filler := rng.Intn(3000)
+			if m%3 == 2 {
+				filler = 200000 + rng.Intn(300000) // decoding this takes a while
+			}
+			tag := fmt.Sprintf("conn-%d-msg-%d-%s", k, m, strings.Repeat(string(rune('a'+k%26)), filler))
 			doc := []byte(fmt.Sprintf(`{"tag":%q}`, tag))
 			peer.Send(wire.Data(wire.OpText, true, doc))
 			var v struct{ Tag string }
